@@ -1,0 +1,18 @@
+//go:build !verif
+
+package cache
+
+// Verification gate points of SetWithCap. Without the "verif" build tag the
+// gate is an empty function the compiler inlines away.
+const (
+	verifLocked = iota + 1
+	verifPutAdded
+	verifOverCap
+	verifUnlocking
+	verifUnlocked
+	verifSpillLock
+	verifSpillEvicted
+	verifSpillSubbed
+)
+
+func verifGate(int, uint, uint64, int) {}
